@@ -168,6 +168,7 @@ CHECKS["C20"] = {
         {"pkg": SERVER, "run": "^TestVerif_C20_SigAfterRetry$", "checks": {"quick": 150, "thorough": 10000}, "shards": {"thorough": 8}},
         {"pkg": SERVER, "run": "^TestVerif_C20_ServerNames$", "checks": {"quick": 150, "thorough": 10000}, "shards": {"thorough": 8}},
         {"pkg": CKCLIENT, "run": "^TestVerif_C20_ProgramNames$", "realtime": True, "checks": {"quick": 12, "thorough": 300}, "shards": {"thorough": 4}, "timeout": {"quick": 600}},
+        {"pkg": SERVER, "run": "^TestVerif_C20_SingleplexUDP$", "realtime": True, "checks": {"quick": 6, "thorough": 150}, "shards": {"thorough": 4}, "timeout": {"quick": 600}},
     ],
 }
 
